@@ -69,3 +69,14 @@ Definition stable_wrt (input output : list extender) : Prop :=
 
 (* extender e sees call c of a plan iff it declares the hook of c's kind *)
 Definition declares (e : extender) (c : call) : bool := wraps (kind_hook (snd c)) e.
+
+(* the ideal run of a plan when the compute-framework object of step s iterates its extender set in the order [o s] *)
+Fixpoint ideal_run_calls_at (o : nat -> list extender) (fails : call -> bool) (cs : list call) : list (call * list event) * bool :=
+  match cs with
+  | [] => ([], false)
+  | c :: r =>
+      match ideal_run_wrapped (kind_hook (snd c)) (o (fst c)) (call_result fails c) with
+      | (t, Ok _) => let (l, fl) := ideal_run_calls_at o fails r in ((c, t) :: l, fl)
+      | (t, Err _) => ([(c, t)], true)
+      end
+  end.
